@@ -23,6 +23,8 @@ def value_corpus(F, tier, name):
     recs += gen.g_disguised_wrap(F, rng, tier)
     recs += gen.g_short_eighths(F, rng, tier)[:: 2 if q else 1]
     recs += gen.g_pow5_thresholds(F, rng, tier)
+    recs += gen.g_limb_crossers(F, rng, tier)
+    recs += gen.g_pow2_digits(F, rng, tier)
     recs += gen.g_zero_limbs(F, rng, tier)
     recs += gen.g_sparse_bigmant(F, rng, 10 if q else 200) if F.name == "f64" else []
     recs += gen.g_budget_splits(F, rng, tier)[:: 3 if q else 1]
@@ -64,7 +66,9 @@ def c01(tier):
              "64-bit products w x 5^q with forced low-bit patterns), G16 (first product's low word all ones), G17 (exact "
              "ties for every digit count and both ends of a decade), G18 (disguised fast path: scaled significand wraps), "
              "G19 (decimal point at every position next to the digit budget), G20 (short exact values at r/8 of an ulp, three spellings), "
-             "G21 (integer parts ending in 64..192 zeros: zero low limbs); "
+             "G21 (integer parts ending in 64..192 zeros: zero low limbs), "
+             "G22 (sparse big integers x large powers), G23 (w next to 2^k / 5^q), G24 (subnormal midpoints whose stepped power "
+             "crosses a limb boundary), G25 (digits of 2^(64j) + d); "
              "distinct = distinct (int,frac,exp) triples; "
              "every record is adjudicated by TLC with IEEE!Judge",
         level_note="TLC evaluates the declarative rounding definition (IEEE.tla) on each (input, bits) pair observed "
@@ -477,6 +481,7 @@ def long_corpus(F, tier, name):
     recs += gen.g_runs(F, rng, 100 if q else 4000)
     recs += gen.g_int_ties(F, rng, 30 if q else 600)
     recs += gen.g_budget_splits(F, rng, tier)
+    recs += gen.g_limb_crossers(F, rng, tier)
     big = 100000 if q else 1000000
     # exact ties with a far-out digit / tails of every length class
     for ef in rng.sample(range(1, F.emaxfield), 5 if q else 80):
@@ -578,6 +583,10 @@ def c05(tier):
         inputs += gen.g_carry(F, rng, tier)[:: 3 if q else 1]
         inputs += gen.g_exact_products(F, rng, tier)[:: 4 if q else 1]
         inputs += gen.g_tie_digit_counts(F, rng, tier)
+        inputs += gen.g_pow2_digits(F, rng, tier)
+        inputs += gen.g_limb_crossers(F, rng, tier)[:: 3 if q else 1]
+        inputs += gen.g_sparse_bigmant(F, rng, 6 if q else 100) if F.name == "f64" else []
+        inputs += gen.g_zero_limbs(F, rng, tier)[:: 3 if q else 1]
     inputs = gen.normalise(gen.dedup(inputs))
     parsecheck.parse_property_check(
         "C05", tier, inputs, cfgs, {"AGREE", "VALUE"},
@@ -631,7 +640,7 @@ def c04(tier):
         inputs += gen.g_tie_digit_counts(F, rng, tier)
     inputs = gen.normalise(gen.dedup(inputs))
     parsecheck.parse_property_check(
-        "C04", tier, inputs, cfgs, {"NOPANIC", "MODEL"}, profiles=("release", "checked"),
+        "C04", tier, inputs, cfgs, {"NOPANIC", "MODEL", "VALUE"}, profiles=("release", "checked"),
         rule="valid inputs of length 0 .. 10^6 and exponents over the whole i32 range, run in release and in a dev profile "
              "with debug-assertions and overflow-checks (catch_unwind per call); TLC validates that each input is valid and "
              "that the outcome is a value; the model (MinLex) is run alongside and must raise no debug assertion and stay "
